@@ -50,6 +50,14 @@ FAMILIES = [
     ("def {H}df({a}, {b}=7):\n    return {a} - {b}\n", "lambda {b}: {H}df({b}.i_pt) - {b}.i_eta"),
     ("def {H}d2({a}, {b}=1, k_=2):\n    return {a} * {b} + k_\n", "lambda {e}: {H}d2({e}.i_pt, k_={e}.i_eta) - {H}d2({e}.i_pt, 3) + {H}d2({e}.i_pt) - {H}d2({e}.i_eta, {b}=4)"),
     ("def {H}d3({a}=1, {b}=2, k_=3):\n    return {a} * 100 + {b} * 10 + k_\n", "lambda {e}: {H}d3({b}={e}.i_pt) + {H}d3(k_={e}.i_pt) - {H}d3({e}.i_eta, k_={e}.i_pt)"),
+    # call shapes python binds in other ways than name by name: such helpers are left as calls (or bound exactly as python binds them)
+    ("def {H}va({a}, *rest):\n    return {a} + len(rest)\n", "lambda {e}: {H}va({e}.i_pt) + {H}va({e}.i_pt, 1, 2)"),
+    ("def {H}kd({a}, *, {b}=2):\n    return {a} - {b}\n", "lambda {e}: {H}kd({e}.i_pt) + {H}kd({e}.i_eta, {b}={e}.i_pt)"),
+    ("def {H}po({a}, /, {b}):\n    return {a} - {b}\n", "lambda {e}: {H}po({e}.i_pt, {e}.i_eta)"),
+    ("def {H}st({a}, {b}):\n    return {a} - {b}\n", "lambda {e}: {H}st(*({e}.i_pt, {e}.i_eta))"),
+    ("def {H}kw2({a}, **kw):\n    return {a} + kw['z']\n", "lambda {e}: {H}kw2({e}.i_pt, z={e}.i_eta)"),
+    # a nested lambda in the helper with a default that mentions a parameter of the helper
+    ("def {H}dl({a}, {b}):\n    return {a}.so_jets.Select(lambda {j}, k_={b}: {j}.i_pt + k_)\n", "lambda {e}: {H}dl({e}, {e}.i_eta)"),
     # comprehension in the helper
     ("def {H}lc({a}):\n    return [{j}.i_pt for {j} in {a}.so_jets if {j}.b_ok]\n", "lambda {e}: len({H}lc({e}))"),
     # comprehension whose loop variable may have the name of something in the argument, or of a parameter
